@@ -56,6 +56,18 @@ def show_qc(fr):
     return "%d#%d" % (fr.numerator, fr.denominator)
 
 
+def coq_fb(x):
+    """Coq term (FloatExact.fb / constants) for the f64 x, exact"""
+    if math.isnan(x):
+        return "PrimFloat.nan"
+    if math.isinf(x):
+        return "PrimFloat.neg_infinity" if x < 0 else "PrimFloat.infinity"
+    neg = math.copysign(1.0, x) < 0
+    m, e = math.frexp(abs(x))
+    mi = int(m * (1 << 53))
+    return "(fb %d (%d) %s)" % (mi, e - 53, "true" if neg else "false")
+
+
 def powi(x, n):
     """compiler-rt __powidf2 (what f64::powi lowers to)"""
     recip = n < 0
@@ -246,6 +258,70 @@ class Table:
     def coq_q(self, bits, u):
         return "(QL %s %s)" % (coq_Q(bits2f(bits)), self.coq_unit(u))
 
+    def coq_qF(self, bits, u):
+        x = bits2f(bits)
+        return "(qnew %s %s)" % (coq_fb(x), self.coq_unitF(u))
+
+    def coq_unitF(self, u):
+        return self.coq_unit(u)
+
+    def float_supported(self, name, _memo={}):
+        """the f64 replica inside Coq (Qty/FloatExact.v) covers this unit: every power met while resolving it
+        is pow(x,1), pow(x,0) or pow(1,y)"""
+        key = (id(self), name)
+        if key in _memo:
+            return _memo[key]
+        r = self.by_name[name]
+        ok = True
+        for f in r.defn:
+            if not self.float_supported(f.name):
+                ok = False
+                break
+            base = (powi(10.0, f[2]) if f[1] == "M" else powi(2.0, f[2])) * f_base_factor(self, f.name)
+            if not (f.exp == 1 or f.exp == 0 or base == 1.0):
+                ok = False
+                break
+        _memo[key] = ok
+        return ok
+
+    def float_unit_supported(self, u):
+        for f in u:
+            if not self.float_supported(f.name):
+                return False
+            base = (powi(10.0, f[2]) if f[1] == "M" else powi(2.0, f[2])) * f_base_factor(self, f.name)
+            if not (f.exp == 1 or f.exp == 0 or base == 1.0):
+                return False
+        return True
+
+    def gen_vF(self):
+        out = ["(* GENERATED by tools/props/qtylib.py: the unit table with its f64 conversion factors as kernel floats. Do not edit. *)",
+               "From Coq Require Import List ZArith QArith Qcanon String.",
+               "From NV Require Import Qty.Model Qty.FloatExact.",
+               "Import ListNotations.",
+               "Open Scope string_scope.",
+               "",
+               "Definition prelude_tblF : table float := ["]
+        lines = []
+        for r in self.rows:
+            if r.base:
+                k = "Base"
+            else:
+                fs = "; ".join("mkF %d (%s (%d)) (Q2Qc (Qmake (%d) %d))" % (
+                    self.index[f.name], "Metric" if f[1] == "M" else "Binary", f[2], f[3], f[4]) for f in r.defn)
+                k = "(Derived %s [%s])" % (coq_fb(bits2f(r.bits)), fs)
+            lines.append("  mkRow %s %s" % (common.coq_string(r.name), k))
+        out.append(";\n".join(lines))
+        out.append("]%list.")
+        return "\n".join(out) + "\n"
+
+    def gen_vD(self):
+        lines = ["(* GENERATED by tools/props/qtylib.py: canonical display name and short-prefix flag of every unit, in table order. Do not edit. *)",
+                 "From Coq Require Import List String.", "Import ListNotations.", "Open Scope string_scope.", "",
+                 "Definition prelude_display : list (string * bool) := ["]
+        lines.append(";\n".join("  (%s, %s)" % (common.coq_string(r.canon), "true" if r.short else "false") for r in self.rows))
+        lines.append("]%list.")
+        return "\n".join(lines) + "\n"
+
     def gen_v(self):
         out = ["(* GENERATED by tools/props/qtylib.py from the unit table of the running implementation",
                "   (harness `qty`, line T: numbat::verif::qty hooks after `use prelude`). Do not edit. *)",
@@ -298,6 +374,8 @@ def session():
         raise common.Broken("unit table dump failed: %r" % out[:200])
     tbl = Table(out)
     write_if_changed(os.path.join(GEN, "PreludeUnits.v"), tbl.gen_v())
+    write_if_changed(os.path.join(GEN, "PreludeUnitsF.v"), tbl.gen_vF())
+    write_if_changed(os.path.join(GEN, "PreludeDisplay.v"), tbl.gen_vD())
     _session.update(binary=binary, table=tbl)
     return binary, tbl
 
@@ -921,7 +999,7 @@ def obs_of_src(line):
     return Obs(parts[0])
 
 
-IMPORTS = ["Qty.Prelude"]
+IMPORTS = ["Qty.Prelude", "Qty.PreludeF", "Qty.DisplayExec"]
 
 
 def known_match(pid, pred):
@@ -1001,3 +1079,21 @@ def replica_convert(tbl, v, ua, ub):
     factor = f_to_base_factor(tbl, ub)
     qb = (v / 1.0) * f_to_base_factor(tbl, ua)
     return qb / factor
+
+
+# ------------------------------------------------------------------ displayed text
+import re as _re
+_NUM = _re.compile(r"^-?(?:inf|NaN|[0-9][0-9_]*(?:\.[0-9]+)?(?:e[+-]?[0-9]+)?)")
+
+
+def unit_part(text):
+    m = _NUM.match(text)
+    return (text[m.end():] if m else text).lstrip(" ")
+
+
+def display_shape_of(text):
+    """what Qty/Display.v display_shape models of the displayed text: the unit part, preceded by the
+    `×` marker for the `coefficient × target` form"""
+    if " × " in text:
+        return "× " + unit_part(text.split(" × ", 1)[1])
+    return unit_part(text)
